@@ -14,6 +14,7 @@ import (
 	"errors"
 	"fmt"
 	"io"
+	"slices"
 )
 
 // A keyAgreement implements the client and server side of a TLS 1.0–1.2 key
@@ -299,6 +300,11 @@ func (ka *ecdheKeyAgreement) processServerKeyExchange(config *Config, clientHell
 
 	if _, ok := curveForCurveID(curveID); !ok {
 		return errors.New("tls: server selected unsupported curve")
+	}
+	// The curve must be one the ClientHello listed in supported_groups (RFC 8422,
+	// Section 5.4); a hello without the extension accepts any supported curve.
+	if len(clientHello.supportedCurves) > 0 && !slices.Contains(clientHello.supportedCurves, curveID) {
+		return errors.New("tls: server selected a curve the ClientHello did not offer")
 	}
 
 	key, err := generateECDHEKey(config.rand(), curveID)
